@@ -9,7 +9,7 @@ import (
 func init() {
 	register(&propDef{
 		id: "C10", level: "other", perCfg: false,
-		explain: "Necessary structural conditions of C10, decided for all paths (hence all byte streams and abort points that reach them). S1 bad frame: on the decode-error edge of the dispatch entry there is no delivery and no reply write, the decode error is returned, and in the connection loop a dispatch error cannot reach another read or dispatch and every exit closes the connection. S2 incomplete frame: the dispatch call in the loop is dominated by `read error == nil` of the same iteration's delimiter read. S3 release on every exit: the handler's first action defers the release (counter decrement under the mutex and wg.Done), the release happens exactly once on every path through the handler (defers included), the per-connection context is derived with WithCancel and its cancel is deferred before the loop. S4 isolation: the request is decoded into a fresh zero value (so the literal null yields an empty call, answered like a call without method) and per-connection code writes no shared state except the counter. S5 panic census: every slice, index, single-result type assertion, division, explicit panic and dereference of an optional wire member in repo code reachable from the connection loop (ctxio included) is discharged by a dominating fact or a named library lemma.",
+		explain: "Necessary structural conditions of C10, decided for all paths (hence all byte streams and abort points that reach them). S1 bad frame: on the decode-error edge of the dispatch entry there is no delivery and no reply write, the decode error is returned, and in the connection loop a dispatch error cannot reach another read or dispatch and every exit closes the connection. S2 incomplete frame: the dispatch call in the loop is dominated by `read error == nil` of the same iteration's delimiter read. S3 release on every exit: the handler's first action defers the release (counter decrement under the mutex and wg.Done), the release happens exactly once on every path through the handler (defers included), the per-connection context is derived with WithCancel and its cancel is deferred before the loop. S4 isolation: the request is decoded into a fresh zero value (so the literal null yields an empty call, answered like a call without method) and per-connection code writes no shared state except the counter. S6 no blocking operation (connection I/O, user dispatcher, Accept, WaitGroup.Wait) is performed while the Service mutex is held, so a peer that stops reading cannot stall the accept loop, other connections or Shutdown. S5 panic census: every slice, index, single-result type assertion, division, explicit panic and dereference of an optional wire member in repo code reachable from the connection loop (ctxio included) is discharged by a dominating fact or a named library lemma.",
 		notDec:  "Hangs caused by a peer that neither reads nor closes (no write deadline is part of the API); kernel resource release; panics inside encoding/json, bufio, net; user dispatchers.",
 		trusted: []string{"bufio.Reader.ReadBytes returns err == nil only with a result ending in the delimiter (non-empty)", "encoding/json.Unmarshal does not panic on any input", "strings.LastIndex result r satisfies -1 <= r <= len(s)-len(sep)"},
 		run:     runC10,
@@ -207,6 +207,84 @@ func runC10(r *Run, p *Prog) {
 				r.Ob("S4", shortName(a.Fn), "per-connection code writes Service."+a.Field, a.Instr.Pos(), false, "a misbehaving client can influence state shared with other connections")
 			}
 		}
+	})
+	// ---- S6: no blocking operation while the Service mutex is held (a client that stops reading must not stall
+	// the accept loop, other connections or Shutdown, which all take that mutex)
+	r.Guard("S6", func() {
+		fns := p.FuncsOf(pkgVarlink)
+		ls := ComputeLockSets(p, cg, fns)
+		if ls == nil {
+			r.Unresolved("S6", "lock-set fixpoint")
+			return
+		}
+		// functions that may block on a peer or on other goroutines
+		blocking := func(c *ssa.CallCommon) string {
+			if c.IsInvoke() {
+				switch c.Method.Name() {
+				case "VarlinkDispatch":
+					return "a user dispatcher"
+				case "Write", "Read", "ReadBytes":
+					if isNamed(c.Value.Type(), pkgVarlink, "ReadWriterContext") || isNamed(c.Value.Type(), "net", "Conn") {
+						return "connection I/O"
+					}
+				case "Accept":
+					if isNamed(c.Value.Type(), "net", "Listener") {
+						return "Accept"
+					}
+				}
+				return ""
+			}
+			switch calleeName(c) {
+			case "sync.WaitGroup.Wait":
+				return "WaitGroup.Wait"
+			case "ctxio.Conn.Write", "ctxio.Conn.Read", "ctxio.Conn.ReadBytes":
+				return "connection I/O"
+			}
+			return ""
+		}
+		// transitive: repo functions that reach a blocking call
+		reaches := map[*ssa.Function]string{}
+		for _, f := range fns {
+			for g := range cg.Reach([]*ssa.Function{f}, false) {
+				for _, cs := range callsIn(g, false) {
+					if _, isGo := cs.Instr.(*ssa.Go); isGo {
+						continue
+					}
+					if w := blocking(cs.Common); w != "" && reaches[f] == "" {
+						reaches[f] = w + " (in " + shortName(g) + ")"
+					}
+				}
+			}
+		}
+		n := 0
+		for _, f := range fns {
+			for _, cs := range callsIn(f, false) {
+				if _, isGo := cs.Instr.(*ssa.Go); isGo {
+					continue
+				}
+				held := ls.At[cs.Instr]
+				if _, isDefer := cs.Instr.(*ssa.Defer); isDefer {
+					continue // evaluated where it runs: its callee's own call sites carry the state
+				}
+				if len(held) == 0 {
+					continue
+				}
+				if _, d := lockOp(cs.Common); d != 0 {
+					continue
+				}
+				n++
+				why := blocking(cs.Common)
+				if why == "" {
+					if t := staticTarget(cs.Common); t != nil {
+						why = reaches[t]
+					}
+				}
+				r.Ob("S6", shortName(f), "call of "+calleeName(cs.Common)+" under the Service mutex does not block on a peer", cs.Instr.Pos(), why == "",
+					"the Service mutex is held across "+why+": a client that stops reading (or a slow handler) blocks the accept loop, every other connection's dispatch and Shutdown, which all need this mutex")
+			}
+		}
+		r.Stat("S6_calls_under_lock", n)
+		r.Floor("S6", 1)
 	})
 	// ---- S5
 	r.Guard("S5", func() {
